@@ -136,6 +136,13 @@ bool Component::ComponentImpl::performTestWithHistory(History &history, const Co
         history.push_back(h);
         bool result = importedComponent->pFunc()->performTestWithHistory(history, importedComponent, type);
         history.pop_back();
+
+        // The components encapsulated by an imported component belong to this model: they have to pass the test too.
+        for (size_t i = 0; result && (i < mComponent->componentCount()); ++i) {
+            auto currentComponent = mComponent->component(i);
+            result = currentComponent->pFunc()->performTestWithHistory(history, currentComponent, type);
+        }
+
         return result;
     }
 
